@@ -84,7 +84,7 @@ for _w, _wn, _file, _fn in ((1, "html", "html.c", "mmd_export_token_html"), (2, 
 
 # 4. verbatim regions, LaTeX code spans (mmd_export_token_latex_tt), one-token trees.  (HTML / OpenDocument raw exporters: C08/defs.py.)
 _esc_unit("latex_tt_delims", "h_tt_delims", "latex.c", ["mmd_export_token_latex_tt"], 32, props=("C04",), kind="bounded",
-          bounds={"tokens in tree": 1, "token type": "concrete per call"}, defines=["-DW=2"], assumptions=[_LEX], spec="C04/leaf.c", cost=15)
+          bounds={"tokens in tree": 1, "token type": "concrete per call"}, defines=["-DW=2"], assumptions=[_LEX], spec="C04/leaf.c", cost=15, flags=["--object-bits", "10"])
 # FAILS on the unchanged tree (genuine defect; thorough tier): CRITIC_SUB_DIV "~>", CRITIC_SUB_OPEN "{~~", CRITIC_SUB_CLOSE "~~}" inside a code span are
 # printed with a bare '~' (an active character in TeX: non-breaking space), so the tilde is lost from the text.
 #   printf 'a `x ~> y` b\n' | multimarkdown -t latex   ->   a \texttt{x ~> y} b
